@@ -18,7 +18,25 @@ REPO = os.environ.get('VERIF_REPO', '/repo')
 SPEC = os.path.join(VERIF, 'spec')
 BUILD = os.path.join(VERIF, 'build')
 HARNESS = os.path.join(VERIF, 'harness')
-NCPU = os.cpu_count() or 4
+def _ncpu():
+    """Parallelism of TLC and of the drivers: VERIF_WORKERS if set, else the number of cores, reduced when the
+    machine is already overloaded (several checks running at once) - more workers than idle cores only adds
+    scheduling noise to the timed parts of the drivers."""
+    n = os.cpu_count() or 4
+    if os.environ.get('VERIF_WORKERS'):
+        return max(1, int(os.environ['VERIF_WORKERS']))
+    try:
+        load = os.getloadavg()[0]
+    except OSError:
+        load = 0.0
+    if load > 2 * n:
+        return max(4, n // 4)
+    if load > n:
+        return max(4, n // 2)
+    return n
+
+
+NCPU = _ncpu()
 
 
 class Inconclusive(Exception):
